@@ -211,6 +211,8 @@ func (d *Discharger) runScript(u *UnitResult, ps *PathScript, sv []Solver, scrip
 	}
 	d.mu.Unlock()
 	pre := header(u.BV) + u.Preamble + strings.Join(u.Decls, "\n") + "\n"
+	var wg sync.WaitGroup
+	raced := 0
 	for i, in := range insts {
 		if d.NoRace || (d.Claimed != nil && !d.Claimed(in.Obl.ID)) {
 			continue
@@ -221,91 +223,101 @@ func (d *Discharger) runScript(u *UnitResult, ps *PathScript, sv []Solver, scrip
 			d.mu.Unlock()
 			continue
 		}
-		// race the other solvers on the standalone query (thorough: all must agree)
-		q := pre + standalone[i] + "(check-sat)\n"
-		in.Query = q
-		in.Outputs = map[string]string{primary.Name: in.Status}
-		type res struct {
-			name string
-			ans  string
-			ms   int64
+		raced++
+		if raced > 6 && !d.Thorough {
+			// enough failing obligations on this path to report; do not spend solver time on the rest
+			in.Outputs = map[string]string{primary.Name: in.Status}
+			in.Query = pre + standalone[i] + "(check-sat)\n"
+			continue
 		}
-		ch := make(chan res, len(sv))
-		others := sv[1:]
-		if in.Status != "unsat" && in.Status != "sat" {
-			others = sv // retry the primary on the standalone query too (fresh context, 3x timeout)
-		}
-		for _, s := range others {
-			go func(s Solver) {
-				s2 := s
-				if !d.Thorough {
-					s2 = solvers(d.TimeoutMs * 3)[indexOfSolver(s.Name)]
-				}
-				o, ms, err := runSolver(s2, q, time.Duration(d.TimeoutMs*3)*time.Millisecond+10*time.Second)
-				a := answers(o)
-				ans := "unknown"
-				if len(a) > 0 {
-					ans = a[0]
-				} else if err != nil {
-					ans = "timeout"
-				}
-				ch <- res{s.Name, ans, ms}
-			}(s)
-		}
-		final := in.Status
-		for range others {
-			r := <-ch
-			in.Outputs[r.name] = r.ans
-			d.mu.Lock()
-			d.Stats.Queries++
-			d.Stats.TotalMs += r.ms
-			d.mu.Unlock()
-			if d.Thorough {
-				continue
+		wg.Add(1)
+		go func(i int, in *OblInstance) {
+			defer wg.Done()
+			d.raceOne(sv, primary, pre+standalone[i]+"(check-sat)\n", in)
+		}(i, in)
+	}
+	wg.Wait()
+	return insts
+}
+
+// raceOne: the other solvers (and the primary again, fresh context) on the standalone query.
+func (d *Discharger) raceOne(sv []Solver, primary Solver, q string, in *OblInstance) {
+	in.Query = q
+	in.Outputs = map[string]string{primary.Name: in.Status}
+	type res struct {
+		name string
+		ans  string
+		ms   int64
+	}
+	others := sv[1:]
+	if in.Status != "unsat" && in.Status != "sat" {
+		others = sv
+	}
+	ch := make(chan res, len(sv))
+	for _, s := range others {
+		go func(s Solver) {
+			o, ms, err := runSolver(s, q, time.Duration(d.TimeoutMs)*time.Millisecond+10*time.Second)
+			a := answers(o)
+			ans := "unknown"
+			if len(a) > 0 {
+				ans = a[0]
+			} else if err != nil {
+				ans = "timeout"
 			}
-			if r.ans == "unsat" && final != "sat" {
-				final = "unsat"
-				in.Solver = r.name
-			}
-			if r.ans == "sat" {
-				final = "sat"
-				in.Solver = r.name
-			}
-		}
+			ch <- res{s.Name, ans, ms}
+		}(s)
+	}
+	final := in.Status
+	for range others {
+		r := <-ch
+		in.Outputs[r.name] = r.ans
+		d.mu.Lock()
+		d.Stats.Queries++
+		d.Stats.TotalMs += r.ms
+		d.mu.Unlock()
 		if d.Thorough {
-			// all must agree on unsat; unknown/timeout from one solver is tolerated if another proves unsat and none says sat
-			nuns, nsat := 0, 0
-			for _, a := range in.Outputs {
-				if a == "unsat" {
-					nuns++
-				}
-				if a == "sat" {
-					nsat++
-				}
-			}
-			switch {
-			case nsat > 0 && nuns > 0:
-				final = "error"
-				d.mu.Lock()
-				d.Stats.ToolError = append(d.Stats.ToolError, "solver disagreement on "+in.Obl.ID)
-				d.mu.Unlock()
-			case nsat > 0:
-				final = "sat"
-			case nuns > 0:
-				final = "unsat"
-			default:
-				final = "unknown"
-			}
+			continue
 		}
-		in.Status = final
-		if final == "unsat" {
-			d.mu.Lock()
-			d.Stats.Wins[in.Solver]++
-			d.mu.Unlock()
-			in.Query = ""
+		if r.ans == "unsat" && final != "sat" {
+			final = "unsat"
+			in.Solver = r.name
+		}
+		if r.ans == "sat" {
+			final = "sat"
+			in.Solver = r.name
 		}
 	}
-	return insts
+	if d.Thorough {
+		nuns, nsat := 0, 0
+		for _, a := range in.Outputs {
+			if a == "unsat" {
+				nuns++
+			}
+			if a == "sat" {
+				nsat++
+			}
+		}
+		switch {
+		case nsat > 0 && nuns > 0:
+			final = "error"
+			d.mu.Lock()
+			d.Stats.ToolError = append(d.Stats.ToolError, "solver disagreement on "+in.Obl.ID)
+			d.mu.Unlock()
+		case nsat > 0:
+			final = "sat"
+		case nuns > 0:
+			final = "unsat"
+		default:
+			final = "unknown"
+		}
+	}
+	in.Status = final
+	if final == "unsat" {
+		d.mu.Lock()
+		d.Stats.Wins[in.Solver]++
+		d.mu.Unlock()
+		in.Query = ""
+	}
 }
 
 func indexOfSolver(name string) int {
@@ -323,7 +335,7 @@ func getModel(query string, terms []string, timeoutMs int) (map[string]string, s
 		return nil, ""
 	}
 	q := strings.TrimSuffix(query, "(check-sat)\n") + "(check-sat)\n(get-value (" + strings.Join(terms, " ") + "))\n"
-	for _, s := range solvers(timeoutMs) {
+	for _, s := range solvers(timeoutMs)[:2] {
 		out, _, _ := runSolver(s, q, time.Duration(timeoutMs)*time.Millisecond+5*time.Second)
 		as := answers(out)
 		if len(as) > 0 && as[0] == "sat" {
